@@ -741,6 +741,28 @@ impl Interpreter {
         self.call_stack.len() + vm_depth
     }
 
+    /// Verification hook: read-only summary of the execution state, so that a
+    /// harness can assert quiescence after a run ended or was abandoned.
+    #[cfg(feature = "tsrun_verif")]
+    pub fn verif_quiescence(&self) -> crate::verif::Quiescence {
+        crate::verif::Quiescence {
+            env_is_global: Gc::ptr_eq(&self.env, &self.global_env),
+            env_guards: self.env_guards.len(),
+            call_stack: self.call_stack.len(),
+            active_vm: self.active_vm.is_some(),
+            pending_orders: self.pending_orders.len(),
+            cancelled_orders: self.cancelled_orders.len(),
+            order_responses: self.order_responses.len(),
+            suspended_for_order: self.suspended_for_order.is_some(),
+            wait_contexts: self.wait_graph.contexts.len(),
+            ready_queue: self.wait_graph.ready_queue.len(),
+            pending_program: self.pending_program.is_some(),
+            pending_module_sources: self.pending_module_sources.len(),
+            exports_scratch: self.exports.len(),
+            loaded_modules: self.loaded_modules.len(),
+        }
+    }
+
     /// Set the GC threshold (0 = disable automatic collection)
     ///
     /// Lower values reduce peak memory but increase GC overhead.
@@ -3823,6 +3845,8 @@ impl Interpreter {
 
         match func {
             JsFunction::Native(native) => {
+                #[cfg(feature = "tsrun_verif")]
+                let _verif_site_scope = crate::verif::SiteScope::new(native.name.as_str());
                 // Call native function - propagate the Guarded to preserve guard
                 (native.func)(self, this_value, args)
             }
